@@ -509,7 +509,20 @@ func abbreviate(acts []vAct, max int) []string {
 	return out
 }
 
+// development aid: VERIF_DUMP_CASE=<number of actions>-<hash as in fail file names>
+// writes the action list of that generated case (also when it does not fail)
+var dumpCase = os.Getenv("VERIF_DUMP_CASE")
+
 func report(spec *checkSpec, res caseResult) {
+	if dumpCase != "" {
+		h := fnv.New32a()
+		for _, a := range res.actions {
+			h.Write([]byte(a.String()))
+		}
+		if fmt.Sprintf("%04d-%08x", len(res.actions), h.Sum32()) == dumpCase {
+			writeFailFile(failFile{Property: spec.prop, Oracle: "dump", Key: "dump", Msg: "dumped on request", Actions: res.actions})
+		}
+	}
 	rec := map[string]interface{}{
 		"h": res.hash, "nt": res.nt, "steps": res.steps, "cls": res.classes,
 	}
@@ -598,6 +611,7 @@ func replayCase(t *testing.T, spec *checkSpec, acts []vAct, trace bool) (res cas
 	synctest.Test(t, func(t *testing.T) {
 		c := newCluster(1)
 		c.traceOn = trace
+		c.strictStability = true // a recorded case: the clock-based stability oracle judges
 		c.setDeciding(spec)
 		beginCaseFile(spec.prop)
 		if spec.setup != nil {
